@@ -30,6 +30,13 @@ CHECKS = {
         note='Reference lexer/machine/builder are self-tested against the whole shared acceptance corpus on every run; texts longer than the bound are not covered.',
         technique='bounded exhaustive enumeration of documents from every control state against a reference model',
         ref='2/C14', engine='E4'),
+    'C18': dict(
+        text='Token delivery oracle (each physical line exactly once, in order, with its number, then one EOF; delivered xor reported-unexpected for rejected documents) '
+             'on every kind sequence of length <= L through the real parse loop, on all look-ahead words TagLine r1 t1 r2 t2 from each of the states with a look-ahead '
+             'alternative (nested/repeated look-ahead with a non-empty queue), and at text level through TokenFormatterBuilder against the reference lexer listing and the corpus .tokens files.',
+        note='Kind level abstracts lexing; runs over {TagLine,Comment,Empty} are bounded (r1<=3/4, r2<=1/2); text level bounded as in C14.',
+        technique='bounded exhaustive enumeration of token-kind sequences and look-ahead arrangements through the real parse loop with a recording builder',
+        ref='2/C18', engine='E1-E3'),
 }
 
 PENDING = 'check under construction in this session (see DESIGN.md section 2); not claimed until its quick run is silent on the unchanged tree'
